@@ -229,7 +229,12 @@ def gen_schedule(rng, quick=True, rules=True, allow_weird=True):
         rel = rng.choice(["gt", "lt", "ge", "le", "eq"]) if for_rule else ("eq" if rng.random() < 0.8 else rng.choice(["gt", "lt"]))
         rep = rng.random() < 0.8
         fd = rng.choice([0, 0, 0, 1]) if rep else rng.choice([0, 0, 1, 2])
-        return ("tod", rel, rtime(86399), 1 if rep else 0, fd)
+        thr = rtime(86399)
+        if rng.random() < 0.25:
+            # a clock time within one hydraulic step before / after the start clock time, or exactly on it: before it the
+            # first occurrence is on the NEXT day (nothing was "crossed" by starting the simulation)
+            thr = (start_clock + rng.choice([-1, -1, 1, 0]) * rng.randint(0, hyd)) % 86400
+        return ("tod", rel, thr, 1 if rep else 0, fd)
 
     for i in range(nctl):
         is_rule = rules and rng.random() < 0.5
@@ -281,3 +286,21 @@ def fix_tod_first_day(sched):
     for ctl in s["controls"]:
         ctl["cond"] = fix(ctl["cond"])
     return s
+
+
+_RULE_WINDOW = {}
+
+
+def rule_window_repaired(wntr):
+    """True when the simulator tests rule time premises against the previous RULE timestep (fixes/C04-rule-window.patch,
+    the semantics of Model/Sched.lean); False on a tree that still uses the previous solve time (known finding C04
+    rule-eq-premise-missed).  Decided once per process by the directed case."""
+    if "v" not in _RULE_WINDOW:
+        s = {"hyd": 3600, "rule": 1800, "report": 0, "duration": 18000, "start_clock": 0, "init": {"0": 0, "1": 1},
+             "controls": [{"id": 0, "kind": "R", "prio": 3, "cond": ("sim", "eq", 13260, 0), "then": [(0, 1)], "else": []},
+                          {"id": 1, "kind": "P", "prio": 3, "cond": ("sim", "eq", 13980, 0), "then": [(1, 0)], "else": []}]}
+        saved = [list(x) for x in RULE_TIMES]
+        rows, _ = run_impl(wntr, build_wn(wntr, s))
+        RULE_TIMES[:] = saved  # the probe must not disturb the observation of the caller's last run
+        _RULE_WINDOW["v"] = dict(rows).get(14400, {}).get(0) == 1
+    return _RULE_WINDOW["v"]
